@@ -287,6 +287,12 @@ impl World {
     /// Called at the entry of every hook: the parent pays for the system call and may be
     /// descheduled for a while.
     pub fn hook_entry(&mut self) {
+        // (a scrut that calls into the operating system without end - also one that never
+        // lets virtual time pass - is stopped like a simulation that never ends)
+        self.events += 1;
+        if self.events > self.max_events {
+            self.abort(SimAbort::EventCap);
+        }
         self.now += self.sc.swarm.syscall_cost_ns;
         self.ovh += self.sc.swarm.syscall_cost_ns;
         if self.sc.swarm.stall_per_mille > 0 && self.sc.swarm.stall_max_ns > 0 {
